@@ -134,7 +134,14 @@ func fuzzFrames(c FuzzCase) (bool, error) {
 			var v interface{}
 			err := conn.ReadJSON(&v)
 			if err != nil && isConnLevelErr(err) {
-				break
+				// ReadJSON does not say whether opening the message or its body
+				// (e.g. corrupt deflate data) failed; only the former ends the
+				// connection: ask NextReader
+				_, r, nerr := conn.NextReader()
+				if nerr != nil {
+					break
+				}
+				io.Copy(io.Discard, io.LimitReader(r, int64(len(c.Data))*1100+1<<16))
 			}
 			accepted++
 			continue
